@@ -127,29 +127,29 @@ Proof.
   - (* float *)
     destruct (a_types a (x_ser x)) as [prev|] eqn:ET.
     + destruct prev; cbn [P] in Hps; try contradiction; cbn [stype_eqb]; exact Hnew.
-    + rewrite EL. apply Hcont; [reflexivity|]. auto.
+    + cbn zeta; rewrite ?EL. apply Hcont; [reflexivity|]. auto.
   - destruct (a_types a (x_ser x)) as [prev|] eqn:ET.
     + destruct (stype_eqb prev StHist) eqn:Eq; [|exact Hnew].
-      destruct prev; try discriminate. rewrite EL. apply Hcont; [reflexivity|]. auto.
-    + cbn [a_done a_last a_types]. rewrite EL. apply Hcont.
+      destruct prev; try discriminate. cbn zeta; rewrite ?EL. apply Hcont; [reflexivity|]. auto.
+    + cbn [a_done a_last a_types]. cbn zeta; rewrite ?EL. apply Hcont.
       * intros s Hs. destruct (Z.eqb_spec s (x_ser x)); [contradiction|reflexivity].
       * rewrite Z.eqb_refl. auto.
   - destruct (a_types a (x_ser x)) as [prev|] eqn:ET.
     + destruct (stype_eqb prev StCBHist) eqn:Eq; [|exact Hnew].
-      destruct prev; try discriminate. rewrite EL. apply Hcont; [reflexivity|]. auto.
-    + cbn [a_done a_last a_types]. rewrite EL. apply Hcont.
+      destruct prev; try discriminate. cbn zeta; rewrite ?EL. apply Hcont; [reflexivity|]. auto.
+    + cbn [a_done a_last a_types]. cbn zeta; rewrite ?EL. apply Hcont.
       * intros s Hs. destruct (Z.eqb_spec s (x_ser x)); [contradiction|reflexivity].
       * rewrite Z.eqb_refl. auto.
   - destruct (a_types a (x_ser x)) as [prev|] eqn:ET.
     + destruct (stype_eqb prev StFHist) eqn:Eq; [|exact Hnew].
-      destruct prev; try discriminate. rewrite EL. apply Hcont; [reflexivity|]. auto.
-    + cbn [a_done a_last a_types]. rewrite EL. apply Hcont.
+      destruct prev; try discriminate. cbn zeta; rewrite ?EL. apply Hcont; [reflexivity|]. auto.
+    + cbn [a_done a_last a_types]. cbn zeta; rewrite ?EL. apply Hcont.
       * intros s Hs. destruct (Z.eqb_spec s (x_ser x)); [contradiction|reflexivity].
       * rewrite Z.eqb_refl. auto.
   - destruct (a_types a (x_ser x)) as [prev|] eqn:ET.
     + destruct (stype_eqb prev StCBFHist) eqn:Eq; [|exact Hnew].
-      destruct prev; try discriminate. rewrite EL. apply Hcont; [reflexivity|]. auto.
-    + cbn [a_done a_last a_types]. rewrite EL. apply Hcont.
+      destruct prev; try discriminate. cbn zeta; rewrite ?EL. apply Hcont; [reflexivity|]. auto.
+    + cbn [a_done a_last a_types]. cbn zeta; rewrite ?EL. apply Hcont.
       * intros s Hs. destruct (Z.eqb_spec s (x_ser x)); [contradiction|reflexivity].
       * rewrite Z.eqb_refl. auto.
 Qed.
